@@ -176,7 +176,7 @@ pub(super) mod http1 {
         }
 
         if req.request().method() == http::Method::CONNECT {
-            authority_form(req.request_mut().uri_mut());
+            authority_form(req.request_mut().uri_mut())?;
 
             // If the URI is to HTTPS, and the connector claimed to be a proxy,
             // then it *should* have tunneled, and so we don't want to send
@@ -199,7 +199,7 @@ pub(super) mod http1 {
     ///
     /// This is the form of the URI with just the authority and a default
     /// path and scheme. This is used in HTTP/1 CONNECT requests.
-    fn authority_form(uri: &mut Uri) {
+    fn authority_form(uri: &mut Uri) -> Result<(), Error> {
         *uri = match uri.authority() {
             Some(auth) => {
                 let mut parts = ::http::uri::Parts::default();
@@ -207,18 +207,19 @@ pub(super) mod http1 {
                 Uri::from_parts(parts).expect("authority is valid")
             }
             None => {
-                unreachable!("authority_form with relative uri");
+                return Err(Error::Protocol(
+                    "CONNECT request target has no authority".into(),
+                ));
             }
         };
+        Ok(())
     }
 
-    fn absolute_form(uri: &mut Uri) {
-        debug_assert!(uri.scheme().is_some(), "absolute_form needs a scheme");
-        debug_assert!(
-            uri.authority().is_some(),
-            "absolute_form needs an authority"
-        );
-    }
+    /// Leave the URI as it is.
+    ///
+    /// A URI without a scheme or authority is already in origin-form (or
+    /// asterisk-form) and is sent unchanged.
+    fn absolute_form(_uri: &mut Uri) {}
 
     /// Convert the URI to origin-form, if it is not already.
     ///
